@@ -198,3 +198,346 @@ fn remove() {
     assert!(!l.contains(&k) && l.peek(&k).is_none(), "[C02.absent] lookups agree the key is gone");
     core::mem::forget(l);
 }
+
+// ------------------------------------------------------------------ LRU / MRU accessors
+
+#[kani::proof]
+#[kani::unwind(6)]
+fn get_lru_variants() {
+    let (mut l, pre) = any_lru(N, 0);
+    let w: u8 = kani::any();
+    let mutable: bool = kani::any();
+    kani::cover!(pre.n == 0, "get_lru: empty");
+    kani::cover!(pre.n >= 2 && mutable, "get_lru_mut: several entries");
+    kani::cover!(pre.n >= 2 && !mutable, "get_lru: several entries");
+    let r = if mutable {
+        l.get_lru_mut().map(|(k, v)| {
+            let o = (*k, *v);
+            *v = w;
+            o
+        })
+    } else {
+        l.get_lru().map(|(k, v)| (*k, *v))
+    };
+    let post = l.verif_abs();
+    inv!(l, post);
+    assert!(r == pre.last(), "[C06.lru] get_lru/get_lru_mut name the least recently used entry");
+    let exp = if pre.n == 0 { pre } else { pre.touch(pre.n - 1, if mutable { Some(w) } else { None }) };
+    assert!(post.view_eq(&exp), "[C06.order][C02.write] get_lru(_mut) is a use: entry moves to the front, write lands in it");
+    core::mem::forget(l);
+}
+
+#[kani::proof]
+#[kani::unwind(6)]
+fn mru_lru_peeks() {
+    let (mut l, pre) = any_lru(N, 0);
+    kani::cover!(pre.n == 0, "peeks: empty");
+    kani::cover!(pre.n == 1, "peeks: single entry");
+    kani::cover!(pre.n >= 2, "peeks: several entries");
+    let a = l.peek_lru().map(|(k, v)| (*k, *v));
+    let b = l.peek_mru().map(|(k, v)| (*k, *v));
+    let c = l.get_mru().map(|(k, v)| (*k, *v));
+    let d = l.peek_lru_mut().map(|(k, v)| (*k, *v));
+    let e = l.peek_mru_mut().map(|(k, v)| (*k, *v));
+    let f = l.get_mru_mut().map(|(k, v)| (*k, *v));
+    let post = l.verif_abs();
+    inv!(l, post);
+    assert!(a == pre.last() && d == pre.last(), "[C06.lru] peek_lru(_mut) name the least recently used entry");
+    assert!(b == pre.first() && c == pre.first() && e == pre.first() && f == pre.first(),
+        "[C06.mru] peek_mru(_mut)/get_mru(_mut) name the most recently used entry");
+    assert!(post == pre, "[C13.readonly][C06.nouse] peek_lru/peek_mru/get_mru variants leave the view unchanged");
+    core::mem::forget(l);
+}
+
+#[kani::proof]
+#[kani::unwind(6)]
+fn mru_lru_mut_writes() {
+    let (mut l, pre) = any_lru(N, 0);
+    kani::assume(pre.n >= 1);
+    let w: u8 = kani::any();
+    let which: u8 = kani::any();
+    kani::assume(which < 3);
+    kani::cover!(pre.n >= 2 && which == 0, "peek_lru_mut write");
+    kani::cover!(pre.n >= 2 && which == 1, "peek_mru_mut write");
+    kani::cover!(pre.n >= 2 && which == 2, "get_mru_mut write");
+    let at = match which {
+        0 => { *l.peek_lru_mut().unwrap().1 = w; pre.n - 1 }
+        1 => { *l.peek_mru_mut().unwrap().1 = w; 0 }
+        _ => { *l.get_mru_mut().unwrap().1 = w; 0 }
+    };
+    let post = l.verif_abs();
+    inv!(l, post);
+    assert!(post == pre.with_val(at, w), "[C02.write][C06.nouse] write through peek_lru_mut/peek_mru_mut/get_mru_mut lands in that entry, order unchanged");
+    core::mem::forget(l);
+}
+
+// ------------------------------------------------------------------ *_or_put
+
+#[kani::proof]
+#[kani::unwind(6)]
+fn or_put_variants() {
+    let (mut l, pre) = any_lru(N, 0);
+    let k: u8 = kani::any();
+    let v: u8 = kani::any();
+    let which: u8 = kani::any();
+    kani::assume(which < 3);
+    kani::cover!(pre.has(k) && which == 0, "peek_or_put: present");
+    kani::cover!(!pre.has(k) && which == 0 && pre.n == pre.cap && pre.cap > 0, "peek_or_put: absent and full");
+    kani::cover!(pre.has(k) && which == 1, "peek_mut_or_put: present");
+    kani::cover!(!pre.has(k) && which == 1, "peek_mut_or_put: absent");
+    kani::cover!(pre.has(k) && which == 2, "contains_or_put: present");
+    kani::cover!(!pre.has(k) && which == 2, "contains_or_put: absent");
+    let (seen, r): (Option<u8>, Option<PR>) = match which {
+        0 => { let (a, b) = l.peek_or_put(k, v); (a.copied(), b.map(|x| pr_of(&x))) }
+        1 => { let (a, b) = l.peek_mut_or_put(k, v); (a.map(|x| *x), b.map(|x| pr_of(&x))) }
+        _ => { let (a, b) = l.contains_or_put(k, v); (if a { pre.val_of(k) } else { None }, b.map(|x| pr_of(&x))) }
+    };
+    let post = l.verif_abs();
+    inv!(l, post);
+    if pre.has(k) {
+        assert!(seen == pre.val_of(k) && r.is_none(), "[C02.lookup][C12.result] *_or_put on a present key peeks: stored value, no PutResult");
+        assert!(post == pre, "[C13.readonly][C06.nouse] *_or_put on a present key leaves the view unchanged");
+    } else {
+        let (exp, exp_r) = spec_lru_put(&pre, k, v);
+        assert!(seen.is_none() && r == Some(exp_r), "[C12.result][C06.victim] *_or_put on an absent key reports exactly what put reports");
+        assert!(post.same_map(&exp), "[C02.map][C12.delta] *_or_put on an absent key changes the map exactly as put does");
+        assert!(post.view_eq(&exp), "[C06.order] *_or_put on an absent key is exactly put");
+    }
+    core::mem::forget(l);
+}
+
+// ------------------------------------------------------------------ remove_lru / purge / resize
+
+#[kani::proof]
+#[kani::unwind(6)]
+fn remove_lru() {
+    let (mut l, pre) = any_lru(N, 0);
+    kani::cover!(pre.n == 0, "remove_lru: empty");
+    kani::cover!(pre.n == 1, "remove_lru: last entry");
+    kani::cover!(pre.n >= 2, "remove_lru: several entries");
+    let r = l.remove_lru();
+    let post = l.verif_abs();
+    inv!(l, post);
+    assert!(r == pre.last(), "[C06.lru][C02.remove] remove_lru returns the least recently used pair, None iff empty");
+    let exp = if pre.n == 0 { pre } else { pre.drop_last() };
+    assert!(post.view_eq(&exp), "[C06.order][C02.map] remove_lru takes out exactly the last entry");
+    core::mem::forget(l);
+}
+
+#[kani::proof]
+#[kani::unwind(6)]
+fn purge() {
+    let (mut l, pre) = any_lru(N, 0);
+    kani::cover!(pre.n >= 2, "purge: several entries");
+    kani::cover!(pre.n == 0, "purge: empty");
+    l.purge();
+    let post = l.verif_abs();
+    inv!(l, post);
+    assert!(post == Abs::empty(pre.cap), "[C06.purge][C02.absent][C01.cap] purge leaves an empty cache with the same capacity");
+    let j: u8 = kani::any();
+    assert!(!l.contains(&j), "[C02.absent] nothing is resident after purge");
+    core::mem::forget(l);
+}
+
+#[kani::proof]
+#[kani::unwind(6)]
+fn resize() {
+    let (mut l, pre) = any_lru(N, 0);
+    let c: usize = kani::any();
+    kani::assume(c <= N + 1);
+    kani::cover!(c < pre.n && c > 0, "resize: shrink below length");
+    kani::cover!(c == 0 && pre.n > 0, "resize: to zero");
+    kani::cover!(c > pre.cap, "resize: grow");
+    kani::cover!(c == pre.cap, "resize: same capacity");
+    let r = l.resize(c);
+    let post = l.verif_abs();
+    inv!(l, post);
+    let dropped = if pre.n > c { pre.n - c } else { 0 };
+    assert!(r == dropped as u64, "[C06.resize] resize returns max(0, len - n)");
+    assert!(post.view_eq(&pre.truncate(c).with_cap(c)), "[C06.resize][C06.order][C01.cap] resize keeps the most recent min(len, n) entries in order and sets the capacity");
+    assert!(l.cap() == c, "[C06.resize][C01.cap] the new capacity is enforced from then on");
+    core::mem::forget(l);
+}
+
+#[kani::proof]
+#[kani::unwind(6)]
+fn resize_then_put() {
+    // two-step contract composition for the capacity-0 corner the statement of C12 singles out
+    let (mut l, pre) = any_lru(N, 1);
+    let c: usize = kani::any();
+    kani::assume(c <= N);
+    let k: u8 = kani::any();
+    let v: u8 = kani::any();
+    kani::cover!(c == 0, "resize(0) then put");
+    kani::cover!(c > 0 && c < pre.n, "shrink then put");
+    l.resize(c);
+    let mid = l.verif_abs();
+    let r = l.put(k, v);
+    let post = l.verif_abs();
+    inv!(l, post);
+    let (exp, exp_r) = spec_lru_put(&mid, k, v);
+    assert!(pr_of(&r) == exp_r, "[C12.result][C12.cap0] put after resize reports truthfully (capacity 0 hands the pair back as Evicted)");
+    assert!(post.view_eq(&exp), "[C06.order][C06.resize] the resized capacity is enforced by the next put");
+    core::mem::forget(l);
+}
+
+// ------------------------------------------------------------------ constructors (full domain)
+
+// kind: proved (loop-free up to the empty drain in Drop; cap ranges over all usize)
+#[kani::proof]
+#[kani::unwind(6)]
+fn ctor_with_hasher() {
+    let cap: usize = kani::any();
+    kani::cover!(cap == 0, "ctor: zero");
+    kani::cover!(cap == usize::MAX, "ctor: usize::MAX");
+    match RawLRU::<u8, u8, DefaultEvictCallback, PoisonHasher>::with_hasher(cap, PoisonHasher) {
+        Ok(l) => {
+            assert!(cap != 0, "[C05.ctor] zero capacity is rejected");
+            let a = l.verif_abs();
+            assert!(l.verif_wf() && a == Abs::empty(cap), "[C05.ctor][C03.wf][C01.cap] a fresh cache is empty, well formed, with the requested capacity");
+            assert!(l.cap() == cap && l.len() == 0 && l.is_empty(), "[C01.len] fresh cache reports cap, len 0, empty");
+        }
+        Err(e) => {
+            assert!(cap == 0 && e == CacheError::InvalidSize(0), "[C05.ctor] Err(InvalidSize(0)) exactly for capacity 0");
+        }
+    }
+}
+
+#[derive(Clone, Copy)]
+pub struct NopCb;
+impl OnEvictCallback for NopCb {
+    fn on_evict<K, V>(&self, _: &K, _: &V) {}
+}
+
+// kind: proved (cap ranges over all usize)
+#[kani::proof]
+#[kani::unwind(6)]
+fn ctor_with_cb_and_hasher() {
+    let cap: usize = kani::any();
+    match RawLRU::<u8, u8, NopCb, PoisonHasher>::with_on_evict_cb_and_hasher(cap, NopCb, PoisonHasher) {
+        Ok(l) => {
+            assert!(cap != 0, "[C05.ctor] zero capacity is rejected");
+            assert!(l.verif_wf() && l.verif_abs() == Abs::empty(cap), "[C05.ctor][C03.wf] fresh cache with callback is empty and well formed");
+        }
+        Err(e) => {
+            assert!(cap == 0 && e == CacheError::InvalidSize(0), "[C05.ctor] Err(InvalidSize(0)) exactly for capacity 0");
+        }
+    }
+}
+
+// ------------------------------------------------------------------ node hand-over functions used by the composite caches
+
+fn fresh_node(k: u8, v: u8) -> NonNull<EntryNode<u8, u8>> {
+    unsafe { NonNull::new_unchecked(Box::into_raw(Box::new(EntryNode::new(k, v)))) }
+}
+
+fn node_kv(n: NonNull<EntryNode<u8, u8>>) -> (u8, u8) {
+    unsafe { (*(*n.as_ptr()).key.as_ptr(), *(*n.as_ptr()).val.as_ptr()) }
+}
+
+#[kani::proof]
+#[kani::unwind(6)]
+fn put_nonnull() {
+    // requires: cap >= 1 (composites never resize their lists), node detached and allocated, key not in list
+    let (mut l, pre) = any_lru(N, 1);
+    let k: u8 = kani::any();
+    let v: u8 = kani::any();
+    kani::assume(!pre.has(k));
+    kani::cover!(pre.n < pre.cap, "put_nonnull: room");
+    kani::cover!(pre.n == pre.cap, "put_nonnull: full");
+    let r = l.put_nonnull(fresh_node(k, v));
+    let post = l.verif_abs();
+    inv!(l, post);
+    let (exp, exp_r) = spec_lru_put(&pre, k, v);
+    assert!(pr_of(&r) == exp_r, "[C12.result][C04.handover] put_nonnull frees and reports the displaced LRU entry, Put otherwise");
+    assert!(post.view_eq(&exp), "[C01.cap][C03.handover] put_nonnull links the node at the front, evicting the LRU entry when full");
+    core::mem::forget(l);
+}
+
+#[kani::proof]
+#[kani::unwind(6)]
+fn put_or_evict_nonnull() {
+    let (mut l, pre) = any_lru(N, 1);
+    let k: u8 = kani::any();
+    let v: u8 = kani::any();
+    kani::assume(!pre.has(k));
+    kani::cover!(pre.n < pre.cap, "put_or_evict_nonnull: room");
+    kani::cover!(pre.n == pre.cap, "put_or_evict_nonnull: full");
+    let r = l.put_or_evict_nonnull(fresh_node(k, v));
+    let post = l.verif_abs();
+    inv!(l, post);
+    let (exp, exp_r) = spec_lru_put(&pre, k, v);
+    match r {
+        None => assert!(exp_r == PR::Put, "[C03.handover] no node is displaced while there is room"),
+        Some(n) => {
+            let (ek, ev) = node_kv(n);
+            assert!(exp_r == PR::Evicted(ek, ev), "[C03.handover][C04.handover] the displaced node is the LRU entry, handed back intact");
+            unsafe {
+                assert!(!post.has(ek), "[C03.handover] the displaced node is no longer indexed");
+                drop(Box::from_raw(n.as_ptr()));
+            }
+        }
+    }
+    assert!(post.view_eq(&exp), "[C01.cap][C03.handover] put_or_evict_nonnull links the node at the front");
+    core::mem::forget(l);
+}
+
+#[kani::proof]
+#[kani::unwind(6)]
+fn remove_and_return_ent() {
+    let (mut l, pre) = any_lru(N, 1);
+    let k: u8 = kani::any();
+    kani::cover!(pre.has(k), "remove_and_return_ent: hit");
+    kani::cover!(!pre.has(k), "remove_and_return_ent: miss");
+    let r = l.remove_and_return_ent(&k);
+    let post = l.verif_abs();
+    inv!(l, post);
+    match (r, pre.pos(k)) {
+        (Some(n), Some(i)) => {
+            assert!(node_kv(n) == (k, pre.v[i]), "[C03.handover][C02.remove] the node handed out carries the key and its stored value");
+            assert!(post.view_eq(&pre.remove_at(i)), "[C03.handover] node unlinked and unindexed, rest unchanged");
+            unsafe { drop(Box::from_raw(n.as_ptr())) };
+        }
+        (None, None) => assert!(post == pre, "[C03.handover] miss leaves the list unchanged"),
+        _ => assert!(false, "[C03.handover][C02.lookup] remove_and_return_ent finds exactly the resident keys"),
+    }
+    core::mem::forget(l);
+}
+
+#[kani::proof]
+#[kani::unwind(6)]
+fn remove_lru_in() {
+    let (mut l, pre) = any_lru(N, 1);
+    kani::cover!(pre.n == 0, "remove_lru_in: empty");
+    kani::cover!(pre.n >= 2, "remove_lru_in: several");
+    let r = l.remove_lru_in();
+    let post = l.verif_abs();
+    inv!(l, post);
+    match r {
+        Some(n) => {
+            assert!(Some(node_kv(n)) == pre.last(), "[C03.handover][C06.lru] remove_lru_in hands out the LRU node intact");
+            assert!(post.view_eq(&pre.drop_last()), "[C03.handover] LRU node unlinked and unindexed");
+            unsafe { drop(Box::from_raw(n.as_ptr())) };
+        }
+        None => assert!(pre.n == 0 && post == pre, "[C03.handover] None iff the list is empty"),
+    }
+    core::mem::forget(l);
+}
+
+#[kani::proof]
+#[kani::unwind(6)]
+fn update_in_place() {
+    let (mut l, pre) = any_lru(N, 1);
+    kani::assume(pre.n >= 1);
+    let i: usize = kani::any();
+    kani::assume(i < pre.n);
+    let mut v: u8 = kani::any();
+    let v0 = v;
+    let (nodes, _, _) = l.verif_nodes();
+    l.update(&mut v, nodes[i]);
+    let post = l.verif_abs();
+    inv!(l, post);
+    assert!(v == pre.v[i], "[C02.value][C12.result] update swaps out the previously stored value");
+    assert!(post.view_eq(&pre.touch(i, Some(v0))), "[C02.write][C06.order] update stores the new value and moves the entry to the front");
+    core::mem::forget(l);
+}
